@@ -425,6 +425,30 @@ class ModelMixin3:
                 if isinstance(v, NoneV):
                     return [(self.exc('TypeError', st, node, 'unsupported type for timedelta component: NoneType'), st)]
             return [(ExtV('timedelta'), st)]
+        if name == 'itertools.chain' and args and not kwargs:
+            # chain(a, b, ...): with an endless supplier among the arguments the result never ends (its elements: any of the parts');
+            # otherwise the known elements followed by the lists
+            def is_endless(a):
+                return isinstance(a, Ref) and a.kind == 'list' and st.get(a.sym).kind in ('repeat', 'count')
+            if any(is_endless(a) for a in args):
+                items = []
+                for a in args:
+                    if isinstance(a, TupleV):
+                        items.extend(a.items)
+                    elif isinstance(a, Ref) and a.kind == 'list':
+                        items.extend(st.get(a.sym).items if st.get(a.sym).kind != 'count' else (NumV(('count',)),))
+                    else:
+                        items.append(Unknown('chained element'))
+                return [(Ref('list', st.new(ListE('repeat', 2, None, items=tuple(items) or (Unknown('chained element'),), stages=('itertools.chain', 'itertools.repeat')))), st)]
+            if all(isinstance(a, TupleV) for a in args):
+                return [(TupleV(tuple(x for a in args for x in a.items)), st)]
+            if all(isinstance(a, TupleV) or (isinstance(a, Ref) and a.kind == 'list') for a in args):
+                stars = []
+                for a in args:
+                    if isinstance(a, TupleV):
+                        a = Ref('list', st.new(ListE('lit', len(a.items), len(a.items), items=a.items)))
+                    stars.append(a)
+                return [(self._chain_list((), stars, st), st)]
         if name.startswith('itertools.chain'):
             v = args[0] if args else NoneV()
             if short == 'from_iterable' and isinstance(v, Ref) and v.kind == 'list':
